@@ -146,6 +146,24 @@ class C03(Check):
         got = out.getvalue()
         if got != want:
             ctx.violation("stream-bytes", case, f"got {got!r} expected {want!r}")
+        # the AGP written beside the FASTA lists the same rows with the same lengths (checked where a scaffold ends in a
+        # gap or has two gaps in a row, and on every 16th case; AGP has no zero-length gap)
+        if (ctx.evaluations % 16 == 0 or any(rows and (rows[-1][0] == "G" or any(a[0] == "G" and b[0] == "G" for a, b in zip(rows, rows[1:]))) for _, rows in scaffolds)) and not any(
+            r[0] == "G" and r[1] == 0 for _, rows in scaffolds for r in rows
+        ):
+            from mc.checks import c03_cli
+            from tola.assembly.format import format_agp
+
+            txt = io.StringIO()
+            format_agp(asm, txt)
+            try:
+                objs = c03_cli.parse_agp_rows(txt.getvalue())
+            except (IndexError, ValueError, KeyError) as e:
+                ctx.violation("agp-unparseable", case, repr(e))
+                return
+            want_objs = [(n, [tuple(r[:3]) if r[0] == "G" else tuple(r[:5]) for r in rows]) for n, rows in scaffolds if rows]
+            if objs != want_objs:
+                ctx.violation("agp-rows-ne-scaffold-rows", case, f"AGP {objs!r} scaffolds {want_objs!r}")
         nt = False
         for _, rows in scaffolds:
             for r in rows:
@@ -205,4 +223,4 @@ class C03(Check):
 
 CHECK = C03()
 # scope added in later rounds, kept in the evidence text
-CHECK.rule += " Header lines with a description ending in blanks (three width / buffer pairs, LF and CRLF). Input files without a final newline (two buffers per width); assemblies of two and three whole-record scaffolds in every order and strand. An empty line between the two records of the input (three width / buffer pairs). CLI: every sixth case also 'restaged' - an older version of the FASTA is indexed by a first invocation, the file is rewritten and FASTA, .fai and .agp are given the same mtime."
+CHECK.rule += " API: the AGP formatted from the same assembly lists the same rows (scaffolds ending in a gap or with two gaps in a row, and every 16th case). Header lines with a description ending in blanks (three width / buffer pairs, LF and CRLF). Input files without a final newline (two buffers per width); assemblies of two and three whole-record scaffolds in every order and strand. An empty line between the two records of the input (three width / buffer pairs). CLI: every sixth case also 'restaged' - an older version of the FASTA is indexed by a first invocation, the file is rewritten and FASTA, .fai and .agp are given the same mtime."
